@@ -259,6 +259,39 @@ fn arb_random_text() -> BoxedStrategy<String> {
     .boxed()
 }
 
+const LADDER_KINDS: [&str; 6] = ["list types", "map types", "set types", "list constants", "map constants", "annotated list types"];
+
+fn ladder_doc(kind: usize, depth: usize) -> Case {
+    let text = match kind {
+        0 | 1 | 2 => {
+            let mut t = String::from("i32");
+            for _ in 0..depth {
+                t = match kind {
+                    0 => format!("list<{}>", t),
+                    1 => format!("map<string, {}>", t),
+                    _ => format!("set<{}>", t),
+                };
+            }
+            format!("struct S {{ 1: {} f }}\ntypedef {} T\nservice X {{ {} m(1: {} a) }}", t, t, t, t)
+        }
+        3 | 4 => {
+            let mut c = String::from("1");
+            for _ in 0..depth {
+                c = if kind == 3 { format!("[{}]", c) } else { format!("{{\"k\": {}}}", c) };
+            }
+            format!("const string C = {}\nstruct S {{ 1: i32 f = {} }}", c, c)
+        }
+        _ => {
+            let mut t = String::from("i32 (a=\"b\")");
+            for _ in 0..depth {
+                t = format!("list<{}> (a = \"b\")", t);
+            }
+            format!("struct S {{ 1: {} f }}", t)
+        }
+    };
+    Case { text, origin: format!("work ladder: {} depth {}", LADDER_KINDS[kind], depth) }
+}
+
 fn nested_docs() -> Vec<Case> {
     let mut out = vec![];
     for depth in [1usize, 8, 32, 48, 60, 63, 64] {
@@ -350,6 +383,47 @@ fn child(ctx: &Ctx) -> i32 {
             report(ctx, rec, "total", &min, &f2);
         }
     };
+    // work ladder: the same construct nested 4, 8, .. 24 deep; the number of heap allocations
+    // the parser performs (a deterministic, machine-independent measure of its work) must not
+    // explode with the depth. A linear parser needs ~6x the work of depth 4 at depth 24, a
+    // quadratic one ~36x; 150x is refused. The ladder stops at the first refusal, so a parser
+    // that has become exponential is reported in milliseconds instead of hanging the probes below.
+    let mut ladder_broken = false;
+    for kind in 0..6usize {
+        let mut base = 0usize;
+        for depth in [4usize, 8, 12, 16, 20, 24] {
+            let c = ladder_doc(kind, depth);
+            write_journal(&c);
+            {
+                let mut r = rec.borrow_mut();
+                r.case(fp(&c), true, || json!({"origin": c.origin, "text": vcore::evidence::truncate(&c.text, 200)}));
+                r.class("work ladder");
+            }
+            let text = c.text.clone();
+            let start = vrt::alloc::begin();
+            let ok = catch(move || {
+                let _ = tp::File::parse(&text);
+            });
+            let snap = vrt::alloc::end(start);
+            if ok.is_err() {
+                break; // a panic here is found and reported by the probes below
+            }
+            if depth == 4 {
+                base = snap.allocs.max(8);
+            } else if snap.allocs > 150 * base {
+                let f = Fail::new(&format!("superlinear-work:{}", LADDER_KINDS[kind]), format!("parsing {} nested {} deep takes {} heap allocations, {} at depth 4: the work explodes with the nesting depth (the parser will not return on nesting the property allows)\n--- text\n{}", LADDER_KINDS[kind], depth, snap.allocs, base, vcore::evidence::truncate(&c.text, 400)));
+                if !seen_or_known(ctx, &f.key) {
+                    report(ctx, &rec, "total", &c, &f);
+                }
+                ladder_broken = true;
+                break;
+            }
+        }
+    }
+    if ladder_broken {
+        // the remaining probes nest up to 64 deep and would not come back
+        return rec.borrow().finish(&ctx.findings);
+    }
     // nesting probes
     for c in nested_docs() {
         if let Err(f) = run_one(&c, "nesting probe", true) {
